@@ -313,9 +313,9 @@ theorem runOps_append (t : Tab) (l1 l2 : List Tab.Op) :
     | error e => rfl
     | ok r => exact ih r.1
 
-/-- one extended call is the history of its base operations -/
+/-- one extended call is the history of its base operations (`OpX.desugar`, on the current number of qubits) -/
 theorem applyOpX_runOps (t : Tab) (x : Tab.OpX) :
-    (match t.applyOpX x with | .ok r => Except.ok r.1 | .error e => .error e) = t.runOps x.desugar := by
+    (match t.applyOpX x with | .ok r => Except.ok r.1 | .error e => .error e) = t.runOps (x.desugar t.n) := by
   cases x with
   | base op =>
     simp only [Tab.applyOpX, Tab.OpX.desugar, Tab.runOps]
@@ -345,18 +345,48 @@ theorem applyOpX_runOps (t : Tab) (x : Tab.OpX) :
       have h4 : q < ((((t.sdgGate q).hGate q).zMeasure q o).1.hGate q).n := h3
       simp only [hq, h1, h2, h3, h4, if_true, Tab.measY]
     · simp only [hq, if_false]
-
-/-- **a history over the extended API is the history of its base operations** -/
-theorem runOpsX_eq_runOps (xs : List Tab.OpX) : ∀ t : Tab, t.runOpsX xs = t.runOps (xs.flatMap Tab.OpX.desugar) := by
-  induction xs with
-  | nil => intro t; rfl
-  | cons x rest ih =>
-    intro t
-    rw [List.flatMap_cons, runOps_append, ← applyOpX_runOps t x]
-    simp only [Tab.runOpsX]
-    cases t.applyOpX x with
+  | cy c tg =>
+    simp only [Tab.applyOpX, Tab.OpX.desugar, Tab.runOps, Tab.applyOp]
+    by_cases ht : tg < t.n
+    · have h1 : tg < (t.sGate tg).n := ht
+      have h3 : tg < (((t.sGate tg).zGate tg).cnotGate c tg).n := ht
+      by_cases hc : c < t.n
+      · have h2 : c < ((t.sGate tg).zGate tg).n ∧ tg < ((t.sGate tg).zGate tg).n := ⟨hc, ht⟩
+        simp only [ht, hc, h1, h2, h3, if_true, and_self, Tab.cyGate]
+      · have h2 : ¬ (c < ((t.sGate tg).zGate tg).n ∧ tg < ((t.sGate tg).zGate tg).n) := fun h => hc h.1
+        simp only [ht, hc, h1, h2, if_true, if_false, and_false]
+    · simp only [ht, if_false, false_and]
+  | traceOut pos os =>
+    simp only [Tab.applyOpX, Tab.OpX.desugar, Tab.runOps, Tab.applyOp, Tab.traceOutQubits]
+    cases t.partialTrace ((List.range t.n).filter fun q => !pos.contains q) os with
     | error e => rfl
-    | ok r => exact ih r.1
+    | ok r => rfl
+
+/-! ### semantics of extended histories (the base semantics of the desugared calls, step by step) -/
+
+/-- group-level semantics of an extended history -/
+noncomputable def specOpsX : List Tab.OpX → GState → GState
+  | [], g => g
+  | x :: rest, g => specOpsX rest (specOps (x.desugar g.n) g)
+
+/-- density-matrix semantics of an extended history -/
+noncomputable def dOpsX : List Tab.OpX → DState → DState
+  | [], s => s
+  | x :: rest, s => dOpsX rest (dOps (x.desugar s.n) s)
+
+/-- Born probability of the outcome script of an extended history -/
+noncomputable def dProbOpsX : List Tab.OpX → DState → ℂ
+  | [], _ => 1
+  | x :: rest, s => dProbOps (x.desugar s.n) s * dProbOpsX rest (dOps (x.desugar s.n) s)
+
+/-- number of random measurements along an extended history -/
+def randOpsX : Tab → List Tab.OpX → Nat
+  | _, [] => 0
+  | t, x :: rest =>
+    randOps t (x.desugar t.n) +
+      match t.applyOpX x with
+      | .ok (t', _) => randOpsX t' rest
+      | .error _ => 0
 
 end Hilbert
 end Graphiq
